@@ -7,6 +7,7 @@ checks = [json.load(open(f)) for f in sorted(glob.glob(os.path.join(ROOT, "manif
 ids = [c["property_id"] for c in checks]
 na_path = os.path.join(ROOT, "manifest.d", "not_applicable.json")
 na = json.load(open(na_path)) if os.path.exists(na_path) else []
+na = [x for x in na if x["property_id"] not in ids]  # a property with a check is claimed
 hooks_commits = []
 hp = os.path.join(ROOT, "MANIFEST.hooks")
 if os.path.exists(hp):
